@@ -44,6 +44,7 @@ func init() {
 func cmdShard(args []string) {
 	fs := flag.NewFlagSet("shard", flag.ExitOnError)
 	mode := fs.String("mode", "crud", "crud|filter|rank|cache|graph|fault|conc")
+	other := fs.Bool("other", false, "conc mode: write load on a second shard sharing the cache manager")
 	cold := fs.Bool("cold", false, "conc mode: reopen the shard before the searchers start")
 	readers := fs.Int("readers", 4, "searcher goroutines in conc mode")
 	maxFaults := fs.Int("max-faults", 10, "fault points per batch in fault mode (0 = all)")
@@ -107,7 +108,7 @@ func cmdShard(args []string) {
 	if *mode == "conc" {
 		for h := 0; h < *hist; h++ {
 			r := sd.NewRunner(cfg, *seed*1000+int64(h), tw, *dir)
-			if err := r.RunConcHistory(h, sd.ConcOpts{Batches: *batches, Readers: *readers, Rank: *rank, Cold: *cold, MaxBatch: *maxBatch}); err != nil {
+			if err := r.RunConcHistory(h, sd.ConcOpts{Batches: *batches, Readers: *readers, Rank: *rank, Cold: *cold, MaxBatch: *maxBatch, Other: *other}); err != nil {
 				fmt.Fprintln(os.Stderr, "driver error:", err)
 				os.Exit(2)
 			}
